@@ -101,12 +101,21 @@ class WMSClient(object):
         req.params.update(query.dimensions_for_params(self.fwd_req_params))
         return req
 
+    def _params_without_layers(self):
+        return dict((k.lower(), v) for k, v in self.request_template.params.params.iteritems()
+                    if k.lower() != 'layers')
+
     def combined_client(self, other, query):
         """
         Return a new WMSClient that combines this request with the `other`. Returns
         ``None`` if the clients are not combinable (e.g. different URLs).
         """
         if self.request_template.url != other.request_template.url:
+            return None
+
+        # the combined request is made with the parameters of this client:
+        # all parameters other than the layers (styles, map, sld, transparent, ...) need to be the same
+        if self._params_without_layers() != other._params_without_layers():
             return None
 
         new_req = self.request_template.copy()
